@@ -182,6 +182,12 @@ pub struct Machine {
     pub interp: Interpreter,
 }
 
+thread_local! {
+    /// one Interpreter / DataParser per thread (construction costs 3 ms / 0.3 ms)
+    pub static MACH: Machine = Machine::new();
+    static DATAP: DataParser = DataParser::new();
+}
+
 impl Machine {
     pub fn new() -> Machine {
         Machine { interp: Interpreter::new() }
@@ -219,15 +225,16 @@ impl Machine {
 /// Load data lines with the real DataParser, as the driver does (DS set to 0 afterwards).
 pub fn load_data(vm: &mut VM, data: &[String]) -> Result<(), String> {
     let r = catch_unwind(AssertUnwindSafe(|| {
-        let dp = DataParser::new();
-        let mut ctr = 0usize;
-        for l in data {
-            if let Err(e) = dp.parse(vm, &mut ctr, l) {
-                return Err(format!("data line {:?}: {}", l, e));
+        DATAP.with(|dp| {
+            let mut ctr = 0usize;
+            for l in data {
+                if let Err(e) = dp.parse(vm, &mut ctr, l) {
+                    return Err(format!("data line {:?}: {}", l, e));
+                }
             }
-        }
-        vm.arch.ds = 0;
-        Ok(())
+            vm.arch.ds = 0;
+            Ok(())
+        })
     }));
     match r {
         Ok(x) => x,
@@ -260,7 +267,6 @@ pub fn run_program(asm: &Asm, vm: &mut VM, horizon: usize) -> Result<RunResult, 
     let mut code = asm.code.clone();
     code.push("hlt".to_owned());
     let mut ictx = asm.ictx();
-    let m = Machine::new();
     let mut idx = start;
     let mut trace = Vec::new();
     let mut prints = Vec::new();
@@ -276,7 +282,8 @@ pub fn run_program(asm: &Asm, vm: &mut VM, horizon: usize) -> Result<RunResult, 
         if trace.last() != Some(&idx) || !code[idx].starts_with("rep") {
             trace.push(idx);
         }
-        match m.exec(idx, vm, &mut ictx, &code[idx]) {
+        let r = MACH.with(|m| m.exec(idx, vm, &mut ictx, &code[idx]));
+        match r {
             Exec::Ok(St::Halt) => return Ok(RunResult { trace, prints, stop: StopReason::Halt }),
             Exec::Ok(St::Print) => {
                 prints.push(idx);
